@@ -35,6 +35,7 @@ def generate(rng, i, tier):
         "bsp": None if line else rng.random() < 0.7,
         "n_updates": (6, rng.choice([12, 25])),
         "p_trade": 0.6,
+        "p_lines": 0.12,
         "market_type": None if line else rng.choice([None, "WIN", "EACH_WAY", "PLACE"]),
     }
     mix = {"p_act": rng.choice([0.4, 0.7]), "p_fok": 0.05, "p_sp": 0.0 if line else rng.choice([0.1, 0.3]), "where": ("through", "through", "at", "behind"), "max_size": 9.0, "w_cancel": 0.5, "w_replace": 0.5, "w_update": 0.2, "persistence": ("LAPSE", "PERSIST", "MARKET_ON_CLOSE") if not line else ("LAPSE", "PERSIST")}
